@@ -13,6 +13,7 @@ import inspect
 import io
 import warnings
 
+from . import control_gen as G
 from . import control_world as W
 from . import model, wmod
 
@@ -26,6 +27,25 @@ def _enter(pool):
     if d == 0:
         pool.__dict__[CALLS] = pool.__dict__.get(CALLS, 0) + 1
     return _depth.set(d + 1)
+
+
+_static_calls = [0]
+
+
+def _wrap_static(f):
+    """a public static method: the session calls it without the pool (no parameter named `self`), so its outermost
+    invocations are counted on the side (deltas are taken around one command of one session)"""
+    @functools.wraps(f)
+    def wrapper(*a, **k):
+        d = _depth.get()
+        if d == 0:
+            _static_calls[0] += 1
+        tok = _depth.set(d + 1)
+        try:
+            return f(*a, **k)
+        finally:
+            _depth.reset(tok)
+    return staticmethod(wrapper)
 
 
 def _wrap(f):
@@ -62,7 +82,8 @@ def counting_class(cls_name):
         if name.startswith("_"):
             continue
         if inspect.isfunction(member):
-            ns[name] = _wrap(member)
+            static = isinstance(inspect.getattr_static(base, name), staticmethod)
+            ns[name] = _wrap_static(member) if static else _wrap(member)
         elif isinstance(member, property):
             ns[name] = property(_wrap(member.fget), _wrap(member.fset) if member.fset else None, doc=member.__doc__)
     cls = type(base.__name__, (base,), ns)
@@ -72,7 +93,7 @@ def counting_class(cls_name):
 
 
 def calls_of(pool):
-    return pool.__dict__.get(CALLS, 0)
+    return pool.__dict__.get(CALLS, 0) + _static_calls[0]
 
 
 def observe_quiet(pool):
@@ -365,6 +386,15 @@ class ScriptRun:
 
     # -- plumbing
     async def oracle(self, line):
+        """expected reply for `line`; what the oracle's own pool invokes does not count as an invocation of the served one
+        (static methods are counted on the side, not per pool)"""
+        s0 = _static_calls[0]
+        try:
+            return await self._oracle(line)
+        finally:
+            _static_calls[0] = s0
+
+    async def _oracle(self, line):
         """expected reply for `line`: a fresh session on the twin (iso) or a direct call on the twin (tv)"""
         v = self.verdict[line]
         if self.mode == "tv":
@@ -445,6 +475,13 @@ class ScriptRun:
         self.stats["v:" + v["kind"]] += 1
         if v["kind"] == "error":
             self.stats["e:" + v["err"]] += 1
+        # lines that write an option as `--name=value`, as an abbreviation, ambiguously, ...: how many were generated, how
+        # many of them the model judges (inside the fragment), and with which kind of verdict
+        for form in G.line_forms(line, self.ctx["cmds"]):
+            self.stats["form:" + form] += 1
+            self.stats["form:" + form + (":outside" if v["kind"] == "outside" else ":inside")] += 1
+            if v["kind"] != "outside":
+                self.stats["form:" + form + ":" + v["kind"]] += 1
         if self.dead[s] or self.abort:
             return
         if self.mode == "tv" and v["kind"] == "outside":
